@@ -516,6 +516,8 @@ def main(tier):
     rep.attempt(bounds.check, rep, {'crc', 'crc_copy', 'adler'}, 'CRC', 30)
     import guardloop
     rep.attempt(guardloop.check, rep, 'CRC', r'^crc/|adler32', 5)
+    import shfrows
+    rep.attempt(shfrows.check, rep, {'crc', 'crc_copy'}, 380)
     rep.attempt(bounds.check_len_width, rep, {'crc', 'crc_copy', 'adler'}, 'CRC', 31)
     import stridecover
     rep.attempt(stridecover.check, rep, 'CRC', {'crc', 'crc_copy', 'adler'}, 80)
